@@ -342,7 +342,13 @@ impl World {
             // against the state before the batch.
             let before = self.models[dst].clone();
             let mut seen: BTreeMap<usize, BTreeMap<u64, Option<rangemap::RangeInclusiveSet<u64>>>> = BTreeMap::new();
-            for (_, origin, supplier, c, _) in &msgs {
+            // the node groups the messages of a batch by actor (a BTreeMap keyed by actor id) and handles one actor
+            // after the other, each in arrival order; cr-sqlite's merge result for a row that is only partly known
+            // depends on that order (a higher causal length drops the clocks, not the values, of the other columns),
+            // so the shadow follows the same order
+            let mut in_node_order = msgs.clone();
+            in_node_order.sort_by_key(|m| self.actor(m.1));
+            for (_, origin, supplier, c, _) in &in_node_order {
                 eff.delivered.push((*origin, sim::cs_brief(c)));
                 let pre = before.get(origin);
                 let s = seen.entry(*origin).or_default();
